@@ -139,7 +139,7 @@ class Model(object):
                     n, names = inline.inline_new_helpers(tree, set(ref['__functions__']))
                     if n:
                         self.inlined.append((rel, 'helpers', names))
-                canon.normalise(tree)
+                canon.normalise(tree, tuple((ref or {}).get('__countloops__', ())))
                 canon.canonicalise(rel, tree, self.renamed)
                 if ref is not None:
                     # N10: locals the reference function does not have are replaced by their definition where that is safe
@@ -152,7 +152,7 @@ class Model(object):
                                 again = True
                                 self.inlined.append((rel, qual, done))
                     if again:
-                        canon.normalise(tree)
+                        canon.normalise(tree, tuple((ref or {}).get('__countloops__', ())))
                         canon.canonicalise(rel, tree, self.renamed)
             else:
                 canon.canonicalise(rel, self.trees[rel], self.renamed)
